@@ -257,6 +257,12 @@ CHECKS = {
 NOT_YET = "check not built yet (work in progress, see DESIGN.md section 8a)"
 
 
+LAYERS = (" Every generator additionally carries the layers of DESIGN.md section 10, each added because an independent "
+          "seeded change showed the gap: sizes and counts beyond small buffers and narrow counters, objects with a "
+          "history (earlier calls, incomplete declarations, recycled addresses on an uninstrumented build share), "
+          "rotated argument / element / return types and overloads, and the rarely used public entry points.")
+
+
 def main():
     checks = []
     for pid in ALL:
@@ -270,7 +276,7 @@ def main():
             "evidence_file": "evidence/%s.json" % pid,
             "replay_cmd_template": "bin/check %s --replay {path}" % pid,
             "engine": c.get("engine", "optdrv"),
-            "level_claimed": {"category": c["category"], "text": c["text"], "design_ref": c["design_ref"]},
+            "level_claimed": {"category": c["category"], "text": c["text"] + LAYERS, "design_ref": c["design_ref"]},
             "level_note": c["note"],
             "technique": c["technique"],
         })
